@@ -89,7 +89,10 @@ Atomic<'a, ItemType, BUFFER_SIZE, MAX_STREAMS> {
 
     #[inline(always)]
     fn pending_items_count(&self) -> u32 {
-        self.streams_manager.used_streams().iter()
+        // (a copy: the list may be rebuilt by a stream being dropped right now -- each entry must be read only once, or the
+        //  check below and the use of the id further down may see different values)
+        let used_streams = *self.streams_manager.used_streams();
+        used_streams.iter()
             .take_while(|&&stream_id| stream_id != u32::MAX)
             .map(|&stream_id| unsafe { self.channels.get_unchecked(stream_id as usize) }.available_elements_count())
             .max().unwrap_or(0) as u32
